@@ -688,9 +688,12 @@ class Mesh:
             _, ixa, ixb = np.unique(pT.view([('', pT.dtype)] * pT.shape[1]),
                                     return_index=True, return_inverse=True)
             p = p[:, ixa]
+            # index of the first vertex of each mesh in the stacked array
+            offsets = np.cumsum([self.p.shape[1]]
+                                + [mesh.p.shape[1] for mesh in other])
             return [
                 cls(p, self._squeeze_if(ixb[self.t])),
-                *[type(m)(p, self._squeeze_if(ixb[m.t + self.p.shape[1]]))
+                *[type(m)(p, self._squeeze_if(ixb[m.t + offsets[i]]))
                   for i, m in enumerate(other)],
             ]
         raise NotImplementedError
